@@ -6,7 +6,7 @@ Layer 1  `waits`: the real generate_command_stream() loop (get_wait_dependency, 
          two-queue hardware model of the property.
 Layer 1b `wait_step`: one call of get_wait_dependency from an arbitrary pre-state (inductive simulation step).
 Layer 2  `rangeset` / `access`: conflict detection == byte overlap on symbolic address ranges.
-Layer 3  `blockdep_*`: sanity lemmas of calc_blockdep that need no timing model.
+Layer 3  `blockdep`: calc_blockdep range and the SHRAM lookup-table hazard (previous kernel reads a table the current kernel overwrites).
 """
 import itertools
 
@@ -33,7 +33,7 @@ ASSUMPTIONS = [
     "kernel<->kernel ordering is BLOCKDEP's job (layer 3); DMA<->DMA is in order on a single channel",
     "layer 1 replaces the per-op register generation, calc_blockdep and check_mem_limits by no-op stubs: they do not influence waits",
 ]
-OUTSIDE = ["whether the BLOCKDEP value is the largest *safe* overlap under the NPU block pipeline timing (no timing spec offline)",
+OUTSIDE = ["whether a non-zero BLOCKDEP value is a *safe* overlap under the NPU block pipeline timing (no timing spec offline)",
            "streams of compiled networks (no end-to-end compilation in this technique)"]
 SHIMS = ["register_command_stream_generator.{get_dma_memory_accesses,get_op_memory_accesses} -> stub access sets whose "
          "conflicts() returns a free z3 Bool per op pair", "range_set/register_command_stream_util: min,max -> ite shims"]
@@ -285,9 +285,50 @@ def dma_access(V):
     return claims
 
 
+# ---------------------------------------------------------------------------------------------- layer 3
+
+
+def blockdep(V, accel, prev_lut, cur_lut, same_fm):
+    """calc_blockdep sanity that needs no block-timing model: the value is in [0, MAX_BLOCKDEP], and when the previous kernel READS
+    SHRAM bytes (its lookup table) that the current kernel WRITES (accumulator area of a non-LUT op on a configuration without reserved
+    banks) - a conflict on SHRAM that only BLOCKDEP can guard - the value is 0.  Access sets come from the real
+    get_op_memory_accesses; base addresses of the previous OFM and the current IFM are symbolic (overlapping or not)."""
+    import ethosu.vela.register_command_stream_util as u
+    import ethosu.vela.range_set as rs
+    from ethosu.vela import api as a
+    from ethosu.vela.architecture_features import ArchitectureFeatures
+    from ethosu.vela.range_set import AccessDirection as AD
+    from harness.c06 import _template
+
+    arch = arch_for(accel)
+    prev, cur = _template(accel, "conv"), _template(accel, "conv")
+    if prev_lut:
+        prev.activation = a.NpuActivation(a.NpuActivationOp.TABLE_LOOKUP)
+        prev.activation.lookup_table_index = 0
+    if cur_lut:
+        cur.activation = a.NpuActivation(a.NpuActivationOp.TABLE_LOOKUP)
+        cur.activation.lookup_table_index = 0
+    ofm_base = V.int("prev_ofm_base", 0, 1 << 20)
+    ifm_base = ofm_base if same_fm else V.int("cur_ifm_base", 0, 1 << 20)
+    prev.ofm.tiles = prev.ofm.tiles._replace(addresses=[ofm_base, 0, 0, 0])
+    cur.ifm.tiles = cur.ifm.tiles._replace(addresses=[ifm_base, 0, 0, 0])
+    with core.shims((u, {"min": core.smin, "max": core.smax, "int": core.IntShim}), (rs, {"min": core.smin, "max": core.smax})):
+        bd = u.calc_blockdep(arch, prev, cur)
+        acc_p = u.get_op_memory_accesses(prev, arch)
+        acc_c = u.get_op_memory_accesses(cur, arch)
+    shram = u.BASE_PTR_INDEX_MEM2MEM
+    rd = acc_p.accesses[AD.Read].regions.get(shram)
+    wr = acc_c.accesses[AD.Write].regions.get(shram)
+    hazard = z3.BoolVal(False)
+    if rd is not None and wr is not None:
+        hazard = _overlap(rd.ranges, wr.ranges)
+    return [("BLOCKDEP in [0, MAX_BLOCKDEP]", z3.And(L(bd) >= 0, L(bd) <= ArchitectureFeatures.MAX_BLOCKDEP)),
+            ("previous kernel reads SHRAM bytes the current kernel writes => BLOCKDEP == 0", z3.Implies(hazard, L(bd) == 0))]
+
+
 # ---------------------------------------------------------------------------------------------- instances
 
-FUNCS = {"waits": waits, "wait_step": wait_step, "rangeset": rangeset, "access": access, "dma_access": dma_access}
+FUNCS = {"waits": waits, "wait_step": wait_step, "rangeset": rangeset, "access": access, "dma_access": dma_access, "blockdep": blockdep}
 
 
 def instances(tier, seed):
@@ -328,4 +369,10 @@ def instances(tier, seed):
     for i, sh in enumerate(shapes):
         out.append(dict(key="access/%d/%s" % (i, "".join("%d%s%d" % t for t in sh)), fn="access", params=dict(shape=sh)))
     out.append(dict(key="dma_access", fn="dma_access", params={}))
+    for accel in ("Ethos_U55_32", "Ethos_U55_64", "Ethos_U55_128", "Ethos_U65_256"):
+        for prev_lut in (0, 1):
+            for cur_lut in (0, 1):
+                for same in (0, 1):
+                    out.append(dict(key="blockdep/%s/lut%d%d/%s" % (accel, prev_lut, cur_lut, "same_fm" if same else "free"), fn="blockdep",
+                                    params=dict(accel=accel, prev_lut=prev_lut, cur_lut=cur_lut, same_fm=same), weight=20))
     return out
